@@ -34,6 +34,13 @@ GuidelineImpositionDisambiguator::GuidelineImpositionDisambiguator(SyntaxTree* t
 Disambiguator::Disambiguation GuidelineImpositionDisambiguator::disambiguateExpression(
         const AmbiguousCastOrBinaryExpressionSyntax* node) const
 {
+    // A cast to an array or function type isn't valid: `(x[1]) & y'.
+    auto tyName = node->castExpression()->typeName();
+    if (tyName
+            && tyName->declarator()
+            && tyName->declarator()->kind() != SyntaxKind::AbstractDeclarator)
+        return Disambiguation::KeepBinaryExpression;
+
     return Disambiguation::KeepCastExpression;
 }
 
@@ -55,5 +62,12 @@ Disambiguator::Disambiguation GuidelineImpositionDisambiguator::disambiguateStat
 Disambiguator::Disambiguation GuidelineImpositionDisambiguator::disambiguateTypeReference(
         const AmbiguousTypeNameOrExpressionAsTypeReferenceSyntax* node) const
 {
+    // With a suffix, an expression is what is usually written: `sizeof(a[0])'.
+    auto tyName = node->typeNameAsTypeReference()->typeName();
+    if (tyName
+            && tyName->declarator()
+            && tyName->declarator()->kind() != SyntaxKind::AbstractDeclarator)
+        return Disambiguation::KeepExpression;
+
     return Disambiguation::KeepTypeName;
 }
